@@ -347,36 +347,38 @@ func TestC12(t *testing.T) {
 	}
 	// quick: a covering subset (every value of every dimension, pairwise-ish by stride); thorough: all 120
 	step := run.Pick(3, 1)
-	for k := 0; k < len(cfgs); k++ {
-		if k%step != run.Pick(int(run.Seed())%3, 0) {
-			continue
-		}
-		cfg := cfgs[k]
-		id := fmt.Sprintf("cfg/%d", k)
-		if !run.Mine(k/step) || !run.Want(id) {
-			continue
-		}
-		run.Journal(id, fmt.Sprintf("%+v", cfg))
-		rng := run.RNG(id)
-		sizes := sizesQ
-		if k%7 == 0 || run.Thorough() {
-			sizes = sizesBig
-		}
-		var res []*c01Result
-		err := Bubble(t, func() { res = runC12(run, run.Seed()+int64(k), cfg, sizes, rng) })
-		if err != nil {
-			res = append(res, &c01Result{"C12/bubble", err.Error()})
-		}
-		run.Cell("cfg", fmt.Sprintf("pv%d", cfg.PV), fmt.Sprintf("key%d", cfg.KeyLen), fmt.Sprintf("comp=%v", cfg.Compress), fmt.Sprintf("label=%d", len(cfg.Label)))
-		for _, r := range res {
-			w := cfg
-			if len(w.Label) > 10 {
-				w.Label = "255xL"
+	for rep := 0; rep < run.Pick(1, 12); rep++ {
+		for k := 0; k < len(cfgs); k++ {
+			if k%step != run.Pick(int(run.Seed())%3, 0) {
+				continue
 			}
-			run.Violation(id, r.Key, r.What, w)
-		}
-		if k < 3 {
-			run.Sample(cfg)
+			cfg := cfgs[k]
+			id := fmt.Sprintf("cfg/%d/rep%d", k, rep)
+			if !run.Mine(k/step+rep) || !run.Want(id) {
+				continue
+			}
+			run.Journal(id, fmt.Sprintf("%+v", cfg))
+			rng := run.RNG(id)
+			sizes := sizesQ
+			if k%7 == 0 || run.Thorough() {
+				sizes = sizesBig
+			}
+			var res []*c01Result
+			err := Bubble(t, func() { res = runC12(run, run.Seed()+int64(k)+int64(rep)*7919, cfg, sizes, rng) })
+			if err != nil {
+				res = append(res, &c01Result{"C12/bubble", err.Error()})
+			}
+			run.Cell("cfg", fmt.Sprintf("pv%d", cfg.PV), fmt.Sprintf("key%d", cfg.KeyLen), fmt.Sprintf("comp=%v", cfg.Compress), fmt.Sprintf("label=%d", len(cfg.Label)))
+			for _, r := range res {
+				w := cfg
+				if len(w.Label) > 10 {
+					w.Label = "255xL"
+				}
+				run.Violation(id, r.Key, r.What, w)
+			}
+			if k < 3 && rep == 0 {
+				run.Sample(cfg)
+			}
 		}
 	}
 	run.Complete()
